@@ -119,6 +119,12 @@ class CoqCases:
         """Returns (failed_indices, errors).  errors: shards that did not compile."""
         cdir = os.path.join(COQ, "Cases")
         os.makedirs(cdir, exist_ok=True)
+        for fn in os.listdir(cdir):          # leftovers of earlier (failed) runs of this check
+            if fn.startswith(f"c_{self.tag}_") or fn.startswith(f".c_{self.tag}_"):
+                try:
+                    os.remove(os.path.join(cdir, fn))
+                except OSError:
+                    pass
         files = []
         for k in range(0, len(self.cases), self.shard):
             chunk = self.cases[k:k + self.shard]
@@ -128,11 +134,11 @@ class CoqCases:
                 fh.write(self.header + "\n")
                 for j, (term, _) in enumerate(chunk):
                     fh.write(f"Definition case_{j} : bool := {term}.\n")
-                fh.write("Definition all_cases : seq bool := [:: "
-                         + "; ".join(f"case_{j}" for j in range(len(chunk))) + "].\n")
-                fh.write("Definition MISMATCHES := [seq i <- iota 0 (size all_cases) | "
-                         "~~ nth true all_cases i].\n")
-                fh.write("Eval vm_compute in MISMATCHES.\n")
+                fh.write("Definition all_cases : list bool := "
+                         + "".join(f"(cons case_{j} " for j in range(len(chunk))) + "nil" + ")" * len(chunk) + ".\n")
+                fh.write("Fixpoint mism_ (i : nat) (l : list bool) : list nat := match l with nil => nil "
+                         "| cons b l' => if b then mism_ (S i) l' else cons i (mism_ (S i) l') end.\n")
+                fh.write("Eval vm_compute in mism_ O all_cases.\n")
             files.append((k, path))
         failed, errors = [], []
         procs = []
@@ -150,7 +156,7 @@ class CoqCases:
             if pr.returncode != 0:
                 errors.append((k, path, (out + err_)[-3000:]))
             else:
-                m = re.search(r"=\s*(.*?)\s*:\s*seq nat", out, re.S)
+                m = re.search(r"=\s*(.*?)\s*:\s*(?:seq|list) nat", out, re.S)
                 if not m:
                     errors.append((k, path, "unparsable output: " + out[-1000:]))
                 else:
